@@ -49,16 +49,16 @@ type Decision struct {
 // optimistic commits: TryCommit fails with a retriable conflict when a file the workspace wrote
 // (or read) changed in head since the workspace was created.
 type SimVCS struct {
-	R        *core.Run
-	Root     string
-	Head     map[string][]byte
-	Modes    map[string]bool // path -> marked binary/writable
-	HeadRev  int
-	Calls    []VCSCall
-	Spaces   []*Workspace
-	Results  []VCSResult
-	Commits  []VCSCommit
-	seq      int
+	R       *core.Run
+	Root    string
+	Head    map[string][]byte
+	Modes   map[string]bool // path -> marked binary/writable
+	HeadRev int
+	Calls   []VCSCall
+	Spaces  []*Workspace
+	Results []VCSResult
+	Commits []VCSCommit
+	seq     int
 	// Decide, when set, is asked at every seam call whether to fail it.
 	Decide func(site string, ws int) Decision
 	// Between, when set, runs before every seam call executes: the place where a concurrent
